@@ -5,6 +5,7 @@ mod c13;
 mod c14;
 mod c16;
 mod c25;
+mod c26;
 mod c34;
 
 fn main() {
@@ -24,6 +25,8 @@ fn main() {
         "c14-e2e" => c14::e2e(rest),
         "c16-record" => c16::record(rest),
         "c25-record" => c25::record(rest),
+        "c26-replay" => c26::replay(rest),
+        "c26-selfcheck" => c26::selfcheck(rest),
         "c34-replay" => c34::replay(rest),
         _ => {
             eprintln!("unknown command {cmd}");
